@@ -294,6 +294,19 @@ def calc_cases(ctx):
                 {"state": [1, None], "povm": [2, 3, None], "gate": [1, None], "mprocess": [2, None, 3]}),
                ({"state": [None, S[1]], "povm": [None, P[1], P[0]], "gate": [None, G[1]], "mprocess": [None, M[1]]},
                 {"state": [None, 1], "povm": [None, 3, 2], "gate": [None, 1], "mprocess": [None, 3]})]
+    # boundary layout: computational-basis inputs and projective measurement processes, so that some m-process outcome
+    # has probability exactly 0 (its post-measurement state is the all-zero placeholder) and gates / further
+    # m-processes / POVMs act on it afterwards
+    from quara.objects.state_typical import generate_state_from_name
+    from quara.objects.povm_typical import generate_povm_from_name
+    from quara.objects.gate_typical import generate_gate_from_gate_name
+    from quara.objects.mprocess_typical import generate_mprocess_from_name
+    c = o["c"]
+    layouts.append(({"state": [generate_state_from_name(c, x) for x in ("z0", "z1", "a")],
+                     "povm": [generate_povm_from_name(x, c) for x in ("z", "x")],
+                     "gate": [generate_gate_from_gate_name(x, c) for x in ("hadamard", "x")],
+                     "mprocess": [generate_mprocess_from_name(c, x) for x in ("z-type1", "x-type1")]},
+                    {"state": [1, 1, 1], "povm": [2, 2], "gate": [1, 1], "mprocess": [2, 2]}))
     maxlen = 4 if ctx.quick else 5
     for lists, ms in layouts:
         n = {k: len(v) for k, v in lists.items()}
@@ -648,7 +661,7 @@ def oracle(ctx, volume=1):
         if s[-1][0] != "povm":
             continue
         if got[0] != "ok":
-            ctx.violate(f"C20/calc_prob_dist/accepted-not-executable/{got[-1]}", f"accepted schedule {s} ending in its only POVM raises {got}", r)
+            ctx.violate(f"C20/calc_prob_dist/accepted-not-executable/{got[-1]}", f"accepted schedule {s} ending in its only POVM raises {got} (layout {ms})", r)
             continue
         ps = np.asarray(got[1], dtype=float)
         ref = born(lists, s)
@@ -700,6 +713,46 @@ def oracle(ctx, volume=1):
                 ctx.violate(f"C20/{cls}/accepted-not-normalised", f"{arg}: {pds}", r)
             elif any(not np.allclose(p, q, atol=1e-9) for p, q in zip(pds, refs)):
                 ctx.violate(f"C20/{cls}/accepted-born-mismatch", f"{arg}: {pds} vs {refs}", r)
+    tomo_boundary(ctx)
+
+
+def tomo_boundary(ctx):
+    """the tomography circuits on boundary objects: computational-basis testers, projective POVMs, a projective true
+    m-process / a Clifford true gate (outcomes of probability exactly 0 inside the circuit)"""
+    from quara.objects.state_typical import generate_state_from_name
+    from quara.objects.povm_typical import generate_povm_from_name
+    from quara.objects.gate_typical import generate_gate_from_gate_name
+    from quara.objects.mprocess_typical import generate_mprocess_from_name
+    import qobj
+    c = qobj.csys("qubit")
+    st = [generate_state_from_name(c, x) for x in ("z0", "z1", "x0")]
+    pv = [generate_povm_from_name(x, c) for x in ("z", "x")]
+    trues = {"qst": [generate_state_from_name(c, x) for x in ("z0", "z1")], "povmt": [generate_povm_from_name("z", c)],
+             "qpt": [generate_gate_from_gate_name(x, c) for x in ("hadamard", "x", "identity")],
+             "qmpt": [generate_mprocess_from_name(c, x) for x in ("z-type1", "x-type1")]}
+    classes = tomo_classes()
+    for cls, (C, kw) in classes.items():
+        args = kw(st, pv)
+        if cls == "povmt":
+            args["num_outcomes"] = 2
+        for which, true in enumerate(trues[cls]):
+            r = rp("tomo-boundary", cls=cls, true=which)
+            ctx.case(("o-tomo-boundary", cls, which))
+            try:
+                t = C(**args)
+                sched = t._experiment.schedules
+                pds = t.generate_prob_dists_sequence(true)
+            except Exception as ex:  # noqa
+                ctx.violate(f"C20/{cls}/accepted-not-executable/boundary-objects", f"{type(ex).__name__}: {ex}", r)
+                continue
+            L = {"state": [true] if cls == "qst" else st, "povm": [true] if cls == "povmt" else pv,
+                 "gate": [true] if cls == "qpt" else [], "mprocess": [true] if cls == "qmpt" else []}
+            refs = [born(L, s) for s in sched]
+            if len(pds) != len(sched) or any(np.shape(p) != q.shape or abs(np.sum(p) - 1) > 1e-9 or np.any(np.asarray(p) < -1e-12)
+                                             for p, q in zip(pds, refs)):
+                ctx.violate(f"C20/{cls}/accepted-not-normalised/boundary-objects", f"{pds}", r)
+            elif any(not np.allclose(p, q, atol=1e-9) for p, q in zip(pds, refs)):
+                ctx.violate(f"C20/{cls}/accepted-born-mismatch/boundary-objects", f"{pds} vs {refs}", r)
 
 
 def search(ctx):
